@@ -102,10 +102,20 @@ theorem cfgListOp_rejected_unchanged (W : World) (fuel : Nat) (s : Schema) (c : 
         | some cs =>
           simp only [hh] at h ⊢
           cases hn : noSlot cs mode with
-          | true => simp [hn]
+          | true => simp
           | false =>
             simp only [hn, Bool.false_eq_true, if_false] at h ⊢
             exact cfgListCore_rejected_unchanged W fuel s' path k c dotted cs mode item n e h
       | _ => rfl
+
+/-- **An index assignment into a list of configurations whose index names no item consumes nothing and changes nothing**
+    (finding F76): the item map is not loaded (no fresh configuration is built, no salt / IV is drawn: `next` stays `n`), the
+    configuration is returned as it is, and the error is the built-in's `IndexError` — whatever the item. -/
+theorem cfgListOp_no_slot (W : World) (fuel : Nat) (s s1 s' : Schema) (c owner : Cfg) (dotted : List Char) (path k : String)
+    (it : Bool) (req : Bool) (m : LeafMeta) (cs : List Cfg) (i : Int) (item : Val) (n : Nat)
+    (hw : walk fuel s "" c dotted = some (s1, path, owner, k)) (hf : s1.get k = some (.cfgList s' it req m))
+    (hh : (owner.get k).bind heldItems = some cs) (hi : PyList.resolveIdx cs.length i = none) :
+    cfgListOp W fuel s c dotted (.setIdx i) item n = { cfg := c, err := some (.raw "IndexError"), next := n } := by
+  simp [cfgListOp, hw, hf, hh, noSlot, hi]
 
 end Cinco.Config
